@@ -129,6 +129,9 @@ func gen(g *kernel.Rng, seed uint64, tier string) *kernel.Plan {
 		if ln < 1 {
 			ln = 1
 		}
+		if typ > 6 && g.Bool(0.04) {
+			ln = 0 // an empty message: a header and no payload
+		}
 		if ln > budget {
 			ln = 1 + ln%budget
 		}
@@ -177,7 +180,7 @@ func build(p *kernel.Plan, tape *kernel.Tape) *trace {
 		}
 		switch o.K {
 		case "m":
-			if len(o.N) < 6 || o.N[3] < 1 || o.N[3] > 1<<24-1 || o.N[0] == 1 || o.N[0] == 2 || o.N[2] < 0 || o.N[2] > 1<<32-1 {
+			if len(o.N) < 6 || o.N[3] < 0 || (o.N[3] == 0 && o.N[0] <= 6) || o.N[3] > 1<<24-1 || o.N[0] == 1 || o.N[0] == 2 || o.N[2] < 0 || o.N[2] > 1<<32-1 {
 				t.valid = false
 				return t
 			}
@@ -329,6 +332,9 @@ func build(p *kernel.Plan, tape *kernel.Tape) *trace {
 				}
 				lastSID[i] = sid
 				m = ref.RTMPMsg{Type: byte(o.N[0]), StreamID: sid, Timestamp: uint32(o.N[2]), Payload: rtmpx.Body(kernel.Op{N: []int64{o.N[0], 0, 0, o.N[3], o.N[4]}}), CSID: csid(i)}
+				if o.N[3] == 0 {
+					m.Payload = []byte{}
+				}
 				want = int(o.N[5]) & 3
 			}
 			if o.K == "scs" {
